@@ -4,3 +4,5 @@ p=$1; ea=$2; eb=$3
 cd /verif
 if [ ! -s /tmp/seedwt/${p}_A.json ]; then tools/seedcheck.py $p A ${ea:+--props $ea} > /tmp/seedwt/${p}_A.json 2>&1; fi
 if [ ! -s /tmp/seedwt/${p}_B.json ]; then tools/seedcheck.py $p B ${eb:+--props $eb} > /tmp/seedwt/${p}_B.json 2>&1; fi
+
+# second wave: seedrun.sh Cxx "" "" 2  -> letters C and D
